@@ -153,10 +153,12 @@ func (srv *Srv) flush(req *SrvReq) {
 	_ = PackRflush(req.Rc)
 	verifPoint("flush.enter", req)
 	conn.Lock()
+	// a Tflush concerns what the client sent before it: not itself, and not
+	// a request that arrived later (two Tflushes naming each other's tags
+	// would otherwise wait for each other for ever)
 	r := conn.reqs[tag]
-	if r == req {
-		// a Tflush that names its own tag has nothing to flush
-		r = nil
+	for r != nil && (r == req || r.seq > req.seq) {
+		r = r.next
 	}
 	if r != nil {
 		req.flushnext = r.flushreq
